@@ -38,7 +38,8 @@ func Decode(b []byte) (principal.Verifier, error) {
 		return nil, fmt.Errorf("parsing public key: %s", err)
 	}
 
-	return rsaverifier{bytes: b, pubKey: pub}, nil
+	// keep a copy: the verifier must not change when the caller reuses its buffer
+	return rsaverifier{bytes: append([]byte{}, b...), pubKey: pub}, nil
 }
 
 type rsaverifier struct {
